@@ -664,8 +664,60 @@ func (m *chainMachine) actions(prof cmProfile) map[string]func(*rapid.T) {
 	if prof.weights != nil && prof.weights["nearMissBid"] > 0 {
 		add("nearMissBid", m.aNearMissBid)
 	}
+	if prof.weights != nil && prof.weights["govParamChange"] > 0 {
+		add("govParamChange", m.aGovParamChange)
+	}
 	acts[""] = func(t *rapid.T) {}
 	return acts
+}
+
+// aGovParamChange changes a minimum-deposit parameter the way an executed governance proposal
+// does: by writing the module's parameter subspace (not through the module keeper).
+func (m *chainMachine) aGovParamChange(t *rapid.T) {
+	dep := rapid.Bool().Draw(t, "deploymentParam")
+	old := m.params.bidMin
+	if dep {
+		old = m.params.depMin
+	}
+	nv := old
+	switch rapid.IntRange(0, 3).Draw(t, "change") {
+	case 0:
+		nv = old * 2
+	case 1:
+		nv = old + 1
+	case 2:
+		nv = maxI64(1, old/2)
+	default:
+		nv = maxI64(1, old-1)
+	}
+	apply := func(a *AkashApp) {
+		ctx := a.BaseApp.NewContext(false, m.header)
+		if dep {
+			ss, ok := a.keeper.params.GetSubspace(dtypes.ModuleName)
+			if !ok {
+				panic("no deployment param subspace")
+			}
+			ss.Set(ctx, []byte("DeploymentMinDeposit"), cmCoin(nv))
+		} else {
+			ss, ok := a.keeper.params.GetSubspace(mtypes.ModuleName)
+			if !ok {
+				panic("no market param subspace")
+			}
+			ss.Set(ctx, []byte("BidMinDeposit"), cmCoin(nv))
+		}
+	}
+	apply(m.app)
+	if m.twin != nil {
+		apply(m.twin)
+	}
+	if dep {
+		m.params.depMin = nv
+		m.logop("gov: DeploymentMinDeposit %d -> %d", old, nv)
+	} else {
+		m.params.bidMin = nv
+		m.logop("gov: BidMinDeposit %d -> %d", old, nv)
+	}
+	m.label("gov-param-change")
 }
 
 // deliverTwin delivers built.msg signed by somebody other than its required signer.
